@@ -195,11 +195,27 @@ func clip(s string) string {
 type RoundTripCase struct {
 	Msgs   []Msg `json:"msgs"`
 	Chunks []int `json:"chunks"` // read sizes, cycled
+	// Before: bodies of well-framed messages that another connection of the same process reads
+	// first (an editor and gopls are two connections of one templ lsp process). They are JSON but not
+	// JSON-RPC 2.0 messages; reading them fails, and must leave no trace.
+	Before []string `json:"before,omitempty"`
+}
+
+// notMessages: valid JSON in a valid frame that is not a JSON-RPC 2.0 message, with members in
+// front of the one that is rejected.
+var notMessages = []string{
+	`{"id":7,"method":"foo","jsonrpc":"1.0"}`,
+	`{"id":"s","error":{"code":-1,"message":"stale"},"jsonrpc":"1.0"}`,
+	`{"method":"m","params":{"a":1},"id":{"x":1}}`,
+	`{"result":{"r":1},"id":5,"method":5}`,
+	`{"jsonrpc":"2.0","id":9,"method":"late","params":[1,2],"error":"not an object"}`,
+	`{"id":3,"result":"r","jsonrpc":2}`,
+	`{"params":{"k":"v"},"method":"n","jsonrpc":"2.0","id":[1]}`,
 }
 
 var recRT = ev.New("C18", "c18.roundtrip",
 	"sequences of 1..12 generated messages (calls, notifications, results, errors; numeric and string ids; params/results with multi-byte text and nested JSON) are written with stream.Write, every frame is re-parsed by the harness's own frame parser (Content-Length must count bytes, body must be the JSON of the message), "+
-		"then the byte stream is read back with stream.Read through a reader that returns the bytes in generated chunk sizes (1 byte, boundaries inside headers, separators and multi-byte characters); messages read must equal messages written, then EOF must give an error. "+
+		"then the byte stream is read back with stream.Read through a reader that returns the bytes in generated chunk sizes (1 byte, boundaries inside headers, separators and multi-byte characters); messages read must equal messages written, then EOF must give an error; in a third of the cases another stream of the same process first reads well-framed JSON bodies that are not JSON-RPC messages (which must leave no trace). "+
 		"Non-trivial = >=3 messages, some non-ASCII payload and chunk sizes that split a header or rune (max chunk < 16); distinct by (messages, chunking)")
 
 func decideRoundTrip(c RoundTripCase) (err error) {
@@ -208,6 +224,10 @@ func decideRoundTrip(c RoundTripCase) (err error) {
 			err = fmt.Errorf("panic: %v", x)
 		}
 	}()
+	for _, body := range c.Before {
+		other := jsonrpc2.NewStream(&bufConn{r: strings.NewReader(frame(body)), w: &bytes.Buffer{}})
+		_, _, _ = other.Read(context.Background())
+	}
 	var wire bytes.Buffer
 	ws := jsonrpc2.NewStream(&bufConn{r: strings.NewReader(""), w: &wire})
 	var total int64
@@ -310,6 +330,10 @@ func nonASCII(s string) bool {
 func TestPropRoundTrip(t *testing.T) {
 	rapid.Check(t, func(t *rapid.T) {
 		c := RoundTripCase{Msgs: rapid.SliceOfN(genMsg, 1, 12).Draw(t, "msgs"), Chunks: genChunks.Draw(t, "chunks")}
+		if rapid.IntRange(0, 2).Draw(t, "withBefore") == 0 {
+			c.Before = rapid.SliceOfN(rapid.SampledFrom(notMessages), 1, 3).Draw(t, "before")
+			recRT.Class("after another connection read frames that are not JSON-RPC messages")
+		}
 		recRT.Eval(1)
 		maxChunk, na := 0, false
 		for _, x := range c.Chunks {
